@@ -10,6 +10,7 @@ import Driver.Url
 import Driver.Ast
 import Driver.Ids
 import Driver.Bufio
+import Driver.LineRec
 namespace Driver
 
 def handle (line : String) : String :=
@@ -27,6 +28,7 @@ def handle (line : String) : String :=
   | "walk" :: rest => handleWalk rest
   | "ids" :: rest => handleIds rest
   | "bufio" :: rest => handleBufio rest
+  | "linerec" :: rest => handleLineRec rest
   | _ => bad
 
 partial def loop (hin hout : IO.FS.Stream) : IO Unit := do
